@@ -87,11 +87,27 @@ def r171(ctx, rep):
     f = ctx.func(LIN_INIT)
     inl = expander(ctx, f, stop=("is_equality",))
     stores = {}
+    FIELDS4 = ("_a_ub", "_b_ub", "_a_eq", "_b_eq")
+    # local accumulators that end up in one of the four fields
+    local_field = {}
     for node in ast.walk(f.node):
-        if isinstance(node, ast.Assign) and len(node.targets) == 1 and isinstance(node.targets[0], ast.Attribute) and node.targets[0].attr in ("_a_ub", "_b_ub", "_a_eq", "_b_eq"):
-            rec = stack_recipe(inl.expand(node.value, node))
+        if isinstance(node, ast.Assign) and len(node.targets) == 1 and isinstance(node.targets[0], ast.Attribute) and node.targets[0].attr in FIELDS4:
+            for x in ast.walk(node.value):
+                if isinstance(x, ast.Name) and x.id not in ("np", "n", "numpy") and x.id.lstrip("_") == node.targets[0].attr.lstrip("_"):
+                    local_field[x.id] = node.targets[0].attr
+            if isinstance(node.value, ast.Subscript) and isinstance(node.value.value, ast.Name):
+                local_field.setdefault(node.value.value.id, node.targets[0].attr)
+            if isinstance(node.value, ast.Name):
+                local_field.setdefault(node.value.id, node.targets[0].attr)
+    for node in ast.walk(f.node):
+        if not (isinstance(node, ast.Assign) and len(node.targets) == 1):
+            continue
+        t0 = node.targets[0]
+        fld = t0.attr if isinstance(t0, ast.Attribute) and t0.attr in FIELDS4 else (local_field.get(t0.id) if isinstance(t0, ast.Name) else None)
+        if fld is not None:
+            rec = stack_recipe(inl.expand(node.value, node) if isinstance(t0, ast.Attribute) else node.value)
             if rec is not None:
-                stores.setdefault(node.targets[0].attr, []).append((node, rec))
+                stores.setdefault(fld, []).append((node, rec))
     for a, b, kind in (("_a_ub", "_b_ub", "inequality"), ("_a_eq", "_b_eq", "equality")):
         if a not in stores or b not in stores:
             rep.bad("R17.1", f"{kind} block")
@@ -169,6 +185,9 @@ def r171(ctx, rep):
             v = undef.get(name)
             txt = norm(v).replace(" ", "") if v is not None else ""
             rhs = "b_ub" if kind == "inequality" else "b_eq"
+            # spellings of the right-hand side: the property, the field, a local accumulator
+            for alt in ["self._" + rhs] + [nm for nm, fl in local_field.items() if fl == "_" + rhs]:
+                txt = txt.replace("(" + alt + ")", "(self." + rhs + ")")
             if kind == "inequality":
                 good = "isnan(self." + rhs + ")" in txt and "isinf(self." + rhs + ")" in txt and "|" in txt
                 good = good or ("isfinite(self." + rhs + ")" in txt and txt.startswith("~"))
@@ -209,7 +228,22 @@ def r172(ctx, rep):
         for sub in ast.walk(v):
             if isinstance(sub, ast.Subscript) and isinstance(sub.value, ast.Attribute) and sub.value.attr == "bounds" and const_value(sub.slice) in (0, 1):
                 out.add("lo" if const_value(sub.slice) == 0 else "hi")
+            # a name that holds one side of the limits (lb, ub = pc.bounds ; xl = lb[idx])
+            if isinstance(sub, ast.Name) and sub.id in whole_side:
+                out |= whole_side[sub.id]
         return out
+    whole_side = {}
+    for node in ast.walk(f.node):
+        # lb, ub = pc.bounds
+        if isinstance(node, ast.Assign) and isinstance(node.targets[0], (ast.Tuple, ast.List)) and len(node.targets[0].elts) == 2 and isinstance(node.value, ast.Attribute) and node.value.attr == "bounds" \
+                and all(isinstance(t, ast.Name) for t in node.targets[0].elts):
+            whole_side.setdefault(node.targets[0].elts[0].id, set()).add("lo")
+            whole_side.setdefault(node.targets[0].elts[1].id, set()).add("hi")
+        if isinstance(node, ast.Assign) and isinstance(node.targets[0], (ast.Tuple, ast.List)) and isinstance(node.value, (ast.Tuple, ast.List)) and len(node.targets[0].elts) == len(node.value.elts):
+            for t, v in zip(node.targets[0].elts, node.value.elts):
+                if isinstance(t, ast.Name) and isinstance(v, ast.Subscript) and isinstance(v.value, ast.Attribute) and v.value.attr == "bounds" and const_value(v.slice) in (0, 1):
+                    whole_side.setdefault(t.id, set()).add("lo" if const_value(v.slice) == 0 else "hi")
+    whole_side = {k: v for k, v in whole_side.items() if len(v) == 1}
     for node in ast.walk(f.node):
         if isinstance(node, ast.Assign) and len(node.targets) == 1 and isinstance(node.targets[0], ast.Name):
             sd = side_of_expr(node.value)
@@ -219,6 +253,8 @@ def r172(ctx, rep):
             for t, v in zip(node.targets[0].elts, node.value.elts):
                 if isinstance(t, ast.Name) and side_of_expr(v):
                     bound_side.setdefault(t.id, set()).update(side_of_expr(v))
+    for k_, v_ in whole_side.items():
+        bound_side.setdefault(k_, set()).update(v_)
 
     def side_of(e):
         """side of a bound operand: a name defined from pc.bounds[k] or such an expression"""
